@@ -58,6 +58,9 @@ func oracleStop(s *scen, w *world.World) error {
 
 func (s *scen) name() string {
 	n := fmt.Sprintf("%s w%d a%d retry%d redirect%d", s.Def.Name, s.Opt.Workers, s.Opt.MaxConcurrentAssets, s.Opt.MaxRetry, s.Opt.MaxRedirect)
+	if s.Opt.RateLimit {
+		n += " limiter"
+	}
 	if s.Stop {
 		n += " +stop"
 	}
@@ -231,6 +234,11 @@ func scenarios(tier string) []scen {
 	for _, d := range world.SweepSites(tier) {
 		for _, ca := range [][2]int{{1, 1}, {1, 2}} {
 			out = append(out, scen{Def: d, Opt: world.Options{Workers: ca[0], MaxConcurrentAssets: ca[1], MaxRetry: 1, MaxRedirect: 2, ExcludeHosts: []string{"excluded.example"}}, P: sweepP})
+		}
+		// the rate limiter on (the CLI default): its bucket operations around every request are further points at which
+		// the concurrent fetches of one level interleave (between the answer and its storing on the item, for one)
+		if len(d.Nodes) > 2 {
+			out = append(out, scen{Def: d, Opt: world.Options{Workers: 1, MaxConcurrentAssets: 2, MaxRetry: 1, MaxRedirect: 2, RateLimit: true, RateCapacity: 10, ExcludeHosts: []string{"excluded.example"}}, P: sweepP})
 		}
 		// tight limits: no retry, one redirect (chains are cut short, the seed must still finish once), two workers per stage; outlink extraction on (max-hops 1)
 		out = append(out, scen{Def: d, Opt: world.Options{Workers: 2, MaxConcurrentAssets: 1, MaxRetry: 0, MaxRedirect: 1, MaxHops: 1, ExcludeHosts: []string{"excluded.example"}}, P: sweepP})
